@@ -81,7 +81,7 @@ static tensor *tensor_of_blocks(ldm **B, size_t nb)
    Eigenvalue (|t_old|^2): along every lower axis j (r_j = (s_j/s_k)^2) the relative error is (1-r_j) e_j^2 / r_j with
    (1-r_j)^2 e_j^2 <= n tol from the stopping rule and e_j = r_j x (component one step earlier, tan <= 4) capping it at 16 r_j;
    plus the leakage of the previous deflation <= unit_{k-1}^2. */
-static void bounds(size_t n, size_t P, size_t npc, const ld *ev, double tol, double *cum, double *vt)
+static void bounds(size_t n, size_t P, size_t npc, const ld *ev, double tol, double eta, double *cum, double *vt)
 {
   double acc = 0, prev_unit = 0; size_t k, j;
   for (k = 0; k < npc; k++) {
@@ -93,7 +93,8 @@ static void bounds(size_t n, size_t P, size_t npc, const ld *ev, double tol, dou
       t1 = (double)n * tol / (rj * (1.0 - rj)); t2 = 16.0 * rj;
       a += t1 < t2 ? t1 : t2;
     }
-    vt[k] = a + (k ? prev_unit * prev_unit : 0.0) + 4.0 * (double)(n + P) * DEPS;   /* + rounding of two sums of n and n P squares */
+    /* + rounding: two sums of n and n P squares of data that carry the relative error eta of the double-precision preprocessing */
+    vt[k] = a + (k ? prev_unit * prev_unit : 0.0) + 4.0 * (double)(n + P) * DEPS + 4.0 * eta;
     prev_unit = unit;
   }
 }
@@ -104,9 +105,9 @@ static void run_case(vh_ctx *c)
   int scaling = (int)vh_int(c, 0, 5), modeB = vh_coin(c, 0.4), attempt, bad_domain = 0, nconst = 0;
   double mag = vh_logunif(c, -1.0, 2.5);
   ldm *Z[4], *B[4] = { 0 }, *T[4] = { 0 }, *E[4], *C, *A, *EV, *Uo;
-  ld *mean[4], *scale[4], colloc[4][8], colunit[4][8], *ev, *sv, trace, e0sq[4], cfro;
+  ld *mean[4], *scale[4], colloc[4][8], colunit[4][8], *ev, *sv, trace, e0sq[4], cfro, rs[4], rsC;
   int isconst[4][8];
-  double *cum, *vt, *cump, *vtp, *flo;
+  double *cum, *vt, *cump, *vtp, *flo, eta;
   tensor *x = NULL, *xb, *pbs;
   CPCAMODEL *m;
   matrix *ps;
@@ -205,6 +206,25 @@ static void run_case(vh_ctx *c)
   or_jacobi_eig(A, ev, EV);
   trace = 0; for (k = 0; k < P; k++) { trace += ev[k]; sv[k] = ev[k] > 0 ? sqrtl(ev[k]) : 0; }
   cfro = ldm_frob(C);
+  /* rounding scale of the library's double-precision preprocessing: an entry (x - m)/s carries eps (|x| + mean|x|)/|s| from the
+     subtraction and the average, and eps |E_ij| kappa_j from the scaling value (kappa = mean|x|/|mean| for level scaling, whose
+     scaling value is the ill-conditioned average itself) */
+  rsC = 0;
+  for (b = 0; b < nb; b++) {
+    rs[b] = 0;
+    for (j = 0; j < w[b]; j++) {
+      ld mabs = 0, sc = scaling >= 1 ? fabsl(scale[b][j]) : 1, kap;
+      if (isconst[b][j] || sc == 0) continue;
+      for (i = 0; i < n; i++) mabs += fabsl(LM(B[b], i, j));
+      mabs /= (ld)n;
+      kap = scaling == 5 ? mabs / fabsl(mean[b][j]) + 1 : 2;
+      for (i = 0; i < n; i++) { ld e = (fabsl(LM(B[b], i, j)) + mabs) / sc + fabsl(LM(T[b], i, j)) * kap; rs[b] += e * e; }
+    }
+    rsC += rs[b] / (ld)w[b];
+    rs[b] = sqrtl(rs[b]);
+  }
+  rsC = sqrtl(rsC);
+  eta = DEPS * (double)(rsC / cfro);
   kmax = 0;
   for (k = 0; k < P && k + 1 < n; k++) {
     if (!(sv[k] >= 1e-3L * sv[0]) || sv[k] == 0) break;
@@ -227,12 +247,13 @@ static void run_case(vh_ctx *c)
   if (npc > 1) vh_obs("multi_component_models", 1);
 
   cum = calloc(npc, sizeof(double)); vt = calloc(npc, sizeof(double)); cump = calloc(npc, sizeof(double)); vtp = calloc(npc, sizeof(double)); flo = calloc(npc, sizeof(double));
-  bounds(n, P, npc, ev, DOC_CPCACONVERGENCE, cum, vt);
-  bounds(n, P, npc, ev, DOC_PCACONVERGENCE, cump, vtp);
+  bounds(n, P, npc, ev, DOC_CPCACONVERGENCE, eta, cum, vt);
+  bounds(n, P, npc, ev, DOC_PCACONVERGENCE, eta, cump, vtp);
   for (k = 0; k < npc; k++) {
     double rho = k + 1 < P ? (double)(sv[k + 1] / sv[k]) : 0.0;
-    /* rounding of a double-precision iteration on data of norm |C|: relative to s_k, amplified by the gap */
-    flo[k] = 4.0 * DEPS * sqrt((double)(n * P)) * (double)(sv[0] / sv[k]) / (1.0 - rho);
+    /* rounding of the double-precision preprocessing (rsC, see above) and of the iteration on data of norm |C|: relative to s_k,
+       amplified by the gap */
+    flo[k] = 4.0 * DEPS * ((double)rsC + sqrt((double)(n * P)) * (double)sv[0]) / ((double)sv[k] * (1.0 - rho));
   }
 
   /* ---- fit ---- */
@@ -377,10 +398,11 @@ static void run_case(vh_ctx *c)
         }
         etn = sqrtl(etn); dl = sqrtl(dl); pn = sqrtl(pn);
         {
-          /* rounding of the library's double-precision deflation history (|E_b0| eps per component) projected on t */
-          ld sc = sqrtl(e0sq[b]) / sqrtl(tt);
+          /* rounding of the library's double-precision preprocessing (rs[b]) and deflation history (|E_b0| eps per component),
+             projected on t */
+          ld sc = (rs[b] + (ld)(k + 1) * sqrtl(e0sq[b])) / sqrtl(tt);
           vh_max("max_blockloading_identity_over_eps_scale", (double)(dl / (DEPS * sc)));
-          if (!(dl <= 1e4 * DEPS * sc)) vh_fail(c, "CPCA|block-loading-identity", "component %zu block %zu: |p_b - E_b't/t't| = %.3Lg, scale |E_b0|/|t| = %.3Lg", k, b, dl, sc);
+          if (!(dl <= 1e3 * DEPS * sc)) vh_fail(c, "CPCA|block-loading-identity", "component %zu block %zu: |p_b - E_b't/t't| = %.3Lg, rounding scale %.3Lg (x eps x 1e3)", k, b, dl, sc);
         }
         /* t_b = E_b p_b / (|p_b| sqrt(width)); the stored block score was computed one iteration earlier (from t_old):
            Lipschitz constant of t -> t_b(t) in the direction of t is 2 |E_b|^2 / (|E_b' t^| sqrt(width)) */
@@ -393,7 +415,7 @@ static void run_case(vh_ctx *c)
           }
           dtb = sqrtl(dtb);
           {
-            ld lip = 2 * ef * ef / (etn / sqrtl(tt) * sqrtl((ld)w[b]) + 1e-300L), tolb = lip * conv + 1e3 * DEPS * sqrtl(e0sq[b]);
+            ld lip = 2 * ef * ef / (etn / sqrtl(tt) * sqrtl((ld)w[b]) + 1e-300L), tolb = lip * conv + 10 * DEPS * (rs[b] + sqrtl(e0sq[b])) * ef / (etn / sqrtl(tt) + 1e-300L);
             vh_max("max_blockscore_identity_over_bound", (double)(dtb / tolb));
             if (!(dtb <= CANGLE * tolb)) vh_fail(c, "CPCA|block-score-identity", "component %zu block %zu: |t_b - E_b p_b/(|p_b| sqrt(width))| = %.3Lg, bound %.3Lg (x%g)", k, b, dtb, tolb, CANGLE);
           }
@@ -402,8 +424,12 @@ static void run_case(vh_ctx *c)
         for (i = 0; i < n; i++) for (j = 0; j < w[b]; j++) { LM(E[b], i, j) -= (ld)m->super_scores->data[i][k] * m->block_loadings->m[b]->data[j][k]; esq += LM(E[b], i, j) * LM(E[b], i, j); }
         bev = 100 * (1 - esq / e0sq[b]);
         dbe = fabsl(bev - m->block_expvar->d[k]->data[b]);
-        vh_max("max_block_expvar_vs_replay_abs", (double)dbe);
-        if (!(dbe <= 1e-8L)) vh_fail(c, "CPCA|block-expvar-value", "component %zu block %zu: block_expvar %.15g, 100 (1 - |E_b|^2/|E_b0|^2) = %.15Lg", k, b, m->block_expvar->d[k]->data[b], bev);
+        {
+          /* percent units; rounding of a ratio of two sums of squares of data carrying the preprocessing rounding rs[b] */
+          ld tole = 100 * DEPS * (rs[b] / sqrtl(e0sq[b]) + sqrtl((ld)(n * w[b])));
+          vh_max("max_block_expvar_vs_replay_over_eps_scale", (double)(dbe / tole));
+          if (!(dbe <= 1e3 * tole)) vh_fail(c, "CPCA|block-expvar-value", "component %zu block %zu: block_expvar %.15g, 100 (1 - |E_b|^2/|E_b0|^2) = %.15Lg", k, b, m->block_expvar->d[k]->data[b], bev);
+        }
         if (!(m->block_expvar->d[k]->data[b] >= -1e-9 && m->block_expvar->d[k]->data[b] <= 100 + 1e-9))
           vh_fail(c, "CPCA|block-expvar-range", "component %zu block %zu: block_expvar %.17g outside [0,100]", k, b, m->block_expvar->d[k]->data[b]);
         if (k > 0 && !(m->block_expvar->d[k]->data[b] >= m->block_expvar->d[k - 1]->data[b] - 1e-9))
